@@ -622,11 +622,13 @@ impl Transaction {
     // tx.work -> needed to confirm adequate routing work
     //
     pub fn generate(&mut self, public_key: &SaitoPublicKey, tx_index: u64, block_id: u64) -> bool {
+        // nolan_in, nolan_out, total fees. this also numbers the outputs by their position, which the
+        // signed bytes cover: it has to come before the hash, so that the transaction is judged by the
+        // bytes that are stored and sent on
+        self.generate_total_fees(tx_index, block_id);
+
         // ensure hash exists for signing
         self.generate_hash_for_signature();
-
-        // nolan_in, nolan_out, total fees
-        self.generate_total_fees(tx_index, block_id);
 
         // routing work for asserted public_key (creator)
         self.generate_total_work(public_key);
